@@ -17,7 +17,7 @@ Definition kids_match (sp : spec) (ph : phase) (kids : list node) : Prop :=
       | SList _ cs => map nspec kids = cs
       | SSeq cs => map nspec kids = firstn (length kids) cs /\ length kids <= length cs /\ seq_prefix_ok kids
       | SCatch c => map nspec kids = [c]
-      | SAll cs => map nspec kids = cs
+      | SAll cs | SAllRec cs => map nspec kids = cs
       end
   end.
 
@@ -100,11 +100,33 @@ Proof.
     + exists (v :: vs). constructor; auto.
 Qed.
 
+(** all children done: their outcomes, admissible for their specs *)
+Lemma all_done_outs (kids : list node) :
+  Forall WF kids -> forallb kid_done kids = true ->
+  Forall2 (fun c o => adm c o) (map nspec kids) (map kid_out kids).
+Proof.
+  induction 1 as [|k r Hk _ IH]; simpl; intros Hd; [constructor|].
+  apply andb_true_iff in Hd. destruct Hd as [Dk Dr]. constructor; [|auto].
+  unfold kid_done in Dk. unfold kid_out. destruct (nphase k) as [| | |o] eqn:E; try discriminate.
+  apply WF_done; auto.
+Qed.
+
+Lemma all_ok_none_has_ko (kids : list node) :
+  forallb kid_done kids = true -> all_ok kids = None -> exists e, In (Ko e) (map kid_out kids).
+Proof.
+  induction kids as [|k r IH]; simpl; intros Hd Ha; [discriminate|].
+  apply andb_true_iff in Hd. destruct Hd as [Dk Dr].
+  unfold kid_done in Dk. unfold kid_ok in Ha. unfold kid_out at 1.
+  destruct (nphase k) as [| | |[v|e]] eqn:E; try discriminate.
+  - destruct (all_ok r) eqn:Er; [discriminate|]. destruct (IH Dr eq_refl) as (e & He). exists e. now right.
+  - exists e. now left.
+Qed.
+
 (** * recombine keeps WF *)
 Lemma recombine_WF sp kids :
   Forall WF kids -> kids_match sp PEval kids -> WF (recombine (Node sp PEval kids)).
 Proof.
-  intros HW HM. destruct sp as [z|e|p cs|cs|c|cs]; simpl in HM; simpl.
+  intros HW HM. destruct sp as [z|e|p cs|cs|c|cs|cs]; simpl in HM; simpl.
   - constructor; auto; simpl; auto. discriminate.
   - constructor; auto; simpl; auto. discriminate.
   - (* list *)
@@ -199,4 +221,11 @@ Proof.
       * constructor; auto. intros o [= <-]. apply adm_all_ok. rewrite <- HM.
         apply Forall2_adm_of_kids; auto. now apply all_ok_some.
       * constructor; auto. discriminate.
+  - (* catch_all with recover_all *)
+    destruct (forallb kid_done kids) eqn:Ed; [|constructor; auto; discriminate].
+    destruct (all_ok kids) as [vs|] eqn:Ea.
+    + constructor; auto. intros o [= <-]. apply adm_allrec_ok. rewrite <- HM.
+      apply Forall2_adm_of_kids; auto. now apply all_ok_some.
+    + constructor; auto. intros o [= <-]. destruct (all_ok_none_has_ko kids Ed Ea) as (e & He).
+      apply (adm_allrec_rec cs (map kid_out kids) e); [|exact He]. rewrite <- HM. now apply all_done_outs.
 Qed.
